@@ -35,6 +35,18 @@ def auth_methods():
     methods = re.findall(r'#\[method\(name\s*=\s*"([^"]+)"', api)
     if len(methods) < 10:
         raise GenError("method table of api.rs not found")
+    # every alias is a method name of its own: jsonrpsee resolves it to the same handler, the middleware looks it up by name
+    for attr in re.findall(r'#\[method\((.*?)\)\]', api, re.S):
+        ma = re.search(r'aliases\s*=\s*\[(.*?)\]', attr, re.S)
+        if ma:
+            for al in re.findall(r'"([^"]+)"', ma.group(1)):
+                if al not in methods:
+                    methods.append(al)
+    # an attribute of the rpc macro that this reader does not know could register names it does not see: undecided, not a pass
+    for attr in re.findall(r'#\[method\((.*?)\)\]', api, re.S):
+        for key in re.findall(r'(\w+)\s*=', re.sub(r'"[^"]*"', '""', attr)):
+            if key not in ("name", "aliases", "param_kind", "blocking", "raw_method", "with_extensions"):
+                raise GenError("#[method(..)] attribute with an unknown key %r in api.rs" % key)
     out = ["// ---- generated from src/api/api.rs on this run: %d RPC methods, %d protected ----" % (len(methods), len(protected))]
 
     def ident(n):
